@@ -277,3 +277,42 @@ fn c08_laws_nested_u() {
     assert!(a.value_signature() == &zvariant::Signature::Variant, "nested value does not report the variant signature");
     core::mem::forget((a, b, c));
 }
+
+// ---------------------------------------------------------------- arrays built through the conversion API
+
+/// Every element of an array is a value of the array's element signature, whichever conversion built the array;
+/// arrays built from a slice and from a Vec of the same elements are equal (elements: u8, or one-level variants).
+#[kani::proof]
+#[kani::unwind(6)]
+#[kani::stub(alloc::fmt::format, no_format)]
+fn c08_array_conversions_y() {
+    let x: [u8; 2] = kani::any();
+    let from_slice = zvariant::Array::from(&x[..]);
+    let from_vec = zvariant::Array::from(vec![x[0], x[1]]);
+    assert!(from_slice.len() == 2 && from_vec.len() == 2);
+    assert!(from_slice == from_vec, "array from a slice differs from the array from a Vec of the same elements");
+    let es = from_slice.element_signature();
+    assert!(*es == zvariant::Signature::U8);
+    let inner = from_slice.inner();
+    assert!(inner[0].value_signature() == es && inner[1].value_signature() == es, "element does not have the array's element signature");
+    kani::cover!(x[0] != x[1], "distinct elements");
+    core::mem::forget((from_slice, from_vec));
+}
+
+#[kani::proof]
+#[kani::unwind(6)]
+#[kani::stub(alloc::fmt::format, no_format)]
+fn c08_array_conversions_v() {
+    let x: [u8; 2] = kani::any();
+    let vals = [Value::U8(x[0]), Value::U8(x[1])];
+    let from_slice = zvariant::Array::from(&vals[..]);
+    let from_vec = zvariant::Array::from(vec![Value::U8(x[0]), Value::U8(x[1])]);
+    assert!(from_slice.len() == 2 && from_vec.len() == 2);
+    assert!(from_slice == from_vec, "array from a slice differs from the array from a Vec of the same elements");
+    let es = from_slice.element_signature();
+    assert!(*es == zvariant::Signature::Variant, "array of variants does not report element signature 'v'");
+    let inner = from_slice.inner();
+    assert!(inner[0].value_signature() == es && inner[1].value_signature() == es, "element does not have the array's element signature");
+    kani::cover!(x[0] != x[1], "distinct elements");
+    core::mem::forget((from_slice, from_vec, vals));
+}
